@@ -1037,7 +1037,7 @@ JOBS = [
          termination="termination_by other.natAbs\ndecreasing_by all_goals omega"),
     dict(func="feedback", lean="frdFeedback", kind="dispatch", extra=[("sign", NUM)],
          defaults={"other": "1", "sign": "-1"}, out="FRDFeedback.lean", env=True),
-    dict(func="__getitem__", lean="frdGetitem", kind="plain", params=[("key", KEY)], defaults={},
+    dict(func="__getitem__", lean="frdGetitemData", kind="plain", params=[("key", KEY)], defaults={},
          out="FRDIndex.lean", env=False),
     dict(func="eval", lean="frdEval", kind="plain", params=[("omega", VEC), ("squeeze", OPAQUE)],
          defaults={"squeeze": "None"}, out="FRDIndex.lean", env=False, returns=ARR3),
